@@ -5,7 +5,8 @@ Helper lemmas for C20 (DTLSR). Property-level statements are in `Dtn7.Props.C20`
   §B  link-state reception: order freedom, the stored entry is the newest
   §C  choice of convergence senders (filterCLAs, broadcast histories)
   §D  Bellman–Ford: n rounds are exact for weights ≥ 0 (simple paths, pigeonhole); the reference table
-  §E  the ported library loop: label-correcting invariant, partial correctness of `libShortest`/`libTable`
+  §E  the ported library loop: label-correcting invariant (incl. acyclic predecessors), termination
+      measure, correctness of `libShortest`/`libTable`
   §F  the graph `computeRoutingTable` builds (costs ≥ 0 for past loss times); unicast sender choice
   §G  the node index (nodeIndex / indexNode are inverse bijections, own node = 0)
 -/
